@@ -327,6 +327,16 @@ fn walkoff_case(ctx: &mut Ctx, c: &CrystalType, theta: f64, phi: f64, bphi: f64,
     "crystal={} ctheta={:e} cphi={:e} bphi={:e} btheta={:e} lambda={:e} T={} pol={} region={} nx={} ny={} nz={} rho={:?}",
     c, theta, phi, bphi, btheta, lambda, t_c, pol_tok(p), region, n.x, n.y, n.z, rho
   );
+  // Beam::refractive_index = index_along at the beam's own direction and wavelength (same K op)
+  let nb = guard(|| *beam.refractive_index(beam.frequency(), &cs));
+  ctx.k(
+    "index_along",
+    &format!(
+      "{} {} {} {} {} {} {} {} {}",
+      fl(n.x), fl(n.y), fl(n.z), fl(theta), fl(phi), fl(d.x), fl(d.y), fl(d.z), pol_tok(p)
+    ),
+    &outf(nb),
+  );
   // "finite for every orientation"
   match rho {
     None => ctx.s("C02.walkoff_finite", false, "walkoff/panic", &det),
@@ -435,7 +445,7 @@ pub fn run(ctx: &mut Ctx) {
         mirror_case(ctx, &k, &d, "sphere");
       }
       // (b) rings around each optic axis
-      let n_az = if ctx.thorough { 24 } else { 6 };
+      let n_az = if ctx.thorough { 32 } else { 8 };
       for ax in optic_axes(&k.n) {
         for rad in RADII.iter() {
           for j in 0..n_az {
@@ -493,7 +503,7 @@ pub fn run(ctx: &mut Ctx) {
   }
 
   // ---------------------------------------------------------------- walk-off
-  let n_w = if ctx.thorough { 40 } else { 6 };
+  let n_w = if ctx.thorough { 60 } else { 8 };
   for c in CRYSTALS.iter() {
     for p in both.iter() {
       // pump along z, crystal angle over the statement's range 12°…90° (uniaxial closed form) and beyond
